@@ -235,6 +235,23 @@ def run(ctx):
         cases.append((f"protdesc_pack {hx(pd.value.encode('utf-8'))}", rp))
         cases.append((f"protdesc_unpack {rp[3:]}", call(lambda: ProtectionDescriptor.unpack(bytes.fromhex(rp[3:])), lambda d: hx(d.value.encode("utf-8")))))
 
+    # --- values the encoder cannot represent (an OID arc outside X.690's first-octet rule): nothing may be emitted for them — an error, never
+    #     bytes that are not the CMS structure (a fault inside a nested SEQUENCE must not leave a half-written blob behind)
+    for bad in ("2.999.3", "1.40.1", "2.40", "0.40.5", "1.255.7.1"):
+        for field in ("enc_cek_algorithm", "enc_content_algorithm"):
+            b = _dc.replace(make_blob(rng, 16), **{field: bad})
+            for in_env in (True, False):
+                r = call(lambda: b.pack(blob_in_envelope=in_env), hx)
+                cases.append((f"blob_pack {int(in_env)} {blob_fields(b)}", r))
+                ctx.count("unencodable_oid")
+                if r.startswith("ok "):
+                    raw = bytes.fromhex(r[3:].replace("-", ""))
+                    ru = call(lambda: DPAPINGBlob.unpack(raw), blob_fields)
+                    if ru != "ok " + blob_fields(b):
+                        ctx.violation("bytes were emitted for a value the encoder cannot represent, and they are not an encoding of it",
+                                      {"blob": blob_fields(b)[:300], "in_envelope": in_env, "field": field, "oid": bad}, (hx(raw)[:120] + " -> " + ru)[:300],
+                                      "an error, or bytes that decode back to the value")
+
     # --- Windows blobs: decode → re-encode identity, and the model decodes them identically ---------------
     data = "/repo/tests/data"
     wins = []
